@@ -55,7 +55,7 @@ CONSTANTS
   MaxHdr,     \* header tokens per message (besides the fixed Host / Server field)
   MaxMsg,     \* messages per stream
   Seg,        \* "none": only build + emit;  "all": additionally every segmentation
-  ReqSeqs,    \* client view: set of request-method sequences ("GET","HEAD","POST") to pair with a stream
+  ReqSeqs,    \* client view: set of request-method sequences, each written "GET+HEAD+POST"
   Eofs,       \* client view: subset of {FALSE, TRUE}: peer closes after the last octet?
   Prefixes,   \* TRUE: Emit also prints the results for every proper prefix followed by the sender's close
   RecvSizes   \* read sizes explored by Recv ({} = every size; the rest of the stream is always included)
@@ -432,7 +432,8 @@ UntilClose(s) ==
 (* the sender closed: an unfinished message is incomplete (RFC 9112 8) *)
 AtEof(s) ==
   IF ~s.eof \/ s.ph = "untilclose" THEN {}
-  ELSE IF s.ph = "line" /\ s.buf = "" THEN Finish(s, IF View = "client" /\ s.rq # <<>> THEN "rejected" ELSE "closed")
+  ELSE IF View = "client" /\ s.rq = <<>> THEN Finish(s, IF s.buf = "" THEN "closed" ELSE "unspec")
+  ELSE IF s.ph = "line" /\ s.buf = "" THEN Finish(s, IF View = "client" THEN "rejected" ELSE "closed")
   ELSE Finish(s, "rejected")
 
 Adv(s) ==
@@ -454,6 +455,8 @@ Feed(T, chunk) == Run({[s EXCEPT !.buf = IF s.ph = "done" THEN "" ELSE @ \o chun
 FeedEof(T) == Run({[s EXCEPT !.eof = TRUE] : s \in T})
 
 EndOf(s) == IF s.end # "" THEN s.end
+            \* octets although no request is outstanding: what the client does with them is not specified
+            ELSE IF View = "client" /\ s.rq = <<>> /\ s.buf # "" THEN "unspec"
             ELSE IF s.ph = "line" /\ s.buf = "" /\ (View = "server" \/ s.rq = <<>>) THEN "open" ELSE "partial"
 Results(T) == {[out |-> s.out, end |-> EndOf(s)] : s \in T}
 
@@ -491,7 +494,7 @@ Eof == /\ mode = "recv" /\ pos = Len(Bytes(msgs)) /\ ctx.eof
        /\ S' = FeedEof(S) /\ mode' = "end"
        /\ UNCHANGED <<msgs, pos, ctx>>
 
-Contexts == IF View = "server" THEN {<<>>} ELSE ReqSeqs
+Contexts == IF View = "server" THEN {<<>>} ELSE {Split(x, "+") : x \in ReqSeqs}   \* "GET+HEAD" -> <<"GET", "HEAD">>
 
 Next == \/ \E l \in LineToks : NewMsg(l)
         \/ \E h \in HdrToks : AddHdr(h)
